@@ -149,3 +149,33 @@ Proof.
   intros Hf H. destruct (verify_implies_content sf ss decoded lv h c H) as [C L].
   destruct (model_content_passes_spec sf ss decoded h c Hf C) as [K D]. auto.
 Qed.
+
+(* ---- C12 clause 8: the model never returns a lone, non-decisive Unknown OCSP entry among several responders ---- *)
+From NCG Require Import Run.C12 Proofs.Ocsp.
+
+Theorem model_never_lone_nondecisive_unknown w st c :
+  lone_unknown_not_decisive w st c (fst (check_cert w st c)) = false.
+Proof.
+  unfold lone_unknown_not_decisive, check_cert.
+  destruct (c_ocsp c) as [|u0 r0] eqn:EO.
+  - destruct (c_crl c) as [|v0 s0] eqn:EC; [reflexivity|].
+    destruct (crl_check _ _ _ _ _ _) as [r clog] eqn:CC. cbn [fst].
+    pose proof (Proofs.CrlCheck.shape (w_fetch w) (w_now w) st (c_serial c) (c_freshest c) (v0 :: s0)) as Sh.
+    rewrite CC in Sh. cbn [fst] in Sh. destruct Sh as [M _]; [discriminate|]. rewrite M. reflexivity.
+  - destruct (ocsp_check (w_ocsp w) (w_now w) st (u0 :: r0)) as [o olog] eqn:OC.
+    pose proof (ocsp_check_exact (w_ocsp w) (w_now w) st (u0 :: r0)) as Ex. rewrite OC in Ex. cbn [fst] in Ex.
+    assert (Ne : u0 :: r0 <> []) by discriminate. specialize (Ex Ne).
+    assert (Core : rmethod_eqb (cr_method o) MOCSP && rres_eqb (cr_result o) RUnknown && (1 <? Z.of_nat (length (u0 :: r0))) &&
+                   match cr_servers o with
+                   | [s] => memZ (sr_url s) (u0 :: r0) && negb (sclass_eqb (sc w st (sr_url s)) CUnknownStatus)
+                   | _ => false end = false).
+    { destruct (find (dec (w_ocsp w) (w_now w) st) (u0 :: r0)) as [u|] eqn:F.
+      - subst o. cbn [cr_method cr_result cr_servers sr_url rmethod_eqb andb].
+        apply find_some in F. destruct F as [_ D]. unfold dec in D. unfold sc.
+        destruct (server_check (w_ocsp w) (w_now w) st u); cbn in D |- *; try discriminate; rewrite ?andb_false_r; reflexivity.
+      - subst o. cbn [cr_method cr_result cr_servers rmethod_eqb rres_eqb andb map].
+        destruct r0 as [|u1 r1]; [cbn; reflexivity|]. cbn [map]. rewrite andb_false_r. reflexivity. }
+    destruct (cr_result o) eqn:R; try (cbn [fst]; rewrite R; exact Core).
+    destruct (c_crl c) as [|v0 s0] eqn:EC; [cbn [fst]; rewrite R; exact Core|].
+    destruct (crl_check _ _ _ _ _ _) as [r clog]. cbn [fst cr_method rmethod_eqb andb]. reflexivity.
+Qed.
